@@ -69,7 +69,7 @@ func c13Text(max int) string {
 	if nd.Thorough() {
 		return nd.String(n)
 	}
-	return nd.StringFrom(n, " \na")
+	return nd.StringFrom(n, " \na\xa0\x85") // 0xA0 and 0x85 are whitespace as runes but not as bytes of UTF-8 text
 }
 
 func c13Tokens(ps []c13Piece, withTrim bool) []parser.Token {
